@@ -2,6 +2,7 @@ import PyAirtouch.Util.Hex
 import PyAirtouch.Model.Crc
 import PyAirtouch.Model.SockValidate
 import PyAirtouch.Model.Heartbeat
+import PyAirtouch.Model.Codecs
 /-! Line-protocol driver over the *model* (Gen + Model). One request per line, one answer per line. -/
 open PyAirtouch PyAirtouch.Util PyAirtouch.Model
 
@@ -23,6 +24,14 @@ def answerPure (ws : List String) : String :=
       | .overflow => "OverflowError"
       | .result b => if b then "true" else "false"
     | _, _ => "bad-op"
+  | ["dec", g, key, len, h] =>
+    match g.toNat?, (len.splitOn ":").mapM String.toNat?, parseHex h with
+    | some g, some len, some bs => Model.Codecs.decCmd g key len bs
+    | _, _, _ => "bad-op"
+  | ["reenc", g, key, len, h] =>
+    match g.toNat?, (len.splitOn ":").mapM String.toNat?, parseHex h with
+    | some g, some len, some bs => Model.Codecs.reencCmd g key len bs
+    | _, _, _ => "bad-op"
   | "hb" :: i :: t :: rt :: rest =>
     let parseIn (ws : List String) : Option Model.Heartbeat.HIn :=
       match ws with
